@@ -21,6 +21,14 @@ def main():
     if "--id" in args:
         only_id = args[args.index("--id") + 1]
         args = [a for a in args if a not in ("--id", only_id)]
+    results = run_mutations(args, only_id, verbose=True)
+    fails = [r for r in results if not r["ok"]]
+    print("selftest: %d mutations, %d failures" % (len(results), len(fails)))
+    return 1 if fails else 0
+
+
+def run_mutations(args, only_id=None, verbose=False):
+    results = []
     muts = []
     mdir = os.path.join(VERIF, "selftest", "mutations")
     for fn in sorted(os.listdir(mdir)):
@@ -42,8 +50,10 @@ def main():
                 src = os.path.join(REPO, ed["file"])
                 text = texts.get(src) or open(src).read()
                 if text.count(ed["find"]) != 1:
-                    print("SELFTEST-BROKEN %s: pattern occurs %d times in %s" % (m["id"], text.count(ed["find"]), ed["file"]))
+                    if verbose:
+                        print("SELFTEST-BROKEN %s: pattern occurs %d times in %s" % (m["id"], text.count(ed["find"]), ed["file"]))
                     fails += 1
+                    results.append({"id": m["id"], "ok": False, "status": "pattern-not-applicable"})
                     overlay = None
                     break
                 dst = os.path.join(tmp, ed["file"].replace("/", "__"))
@@ -59,15 +69,17 @@ def main():
             hit = r.returncode == 1 and "VIOLATION property=%s" % m["property"] in r.stdout
             want = m.get("expect", "violation")
             ok = hit if want == "violation" else (r.returncode == 0)
-            print("%s %-8s %-40s exit=%d %s" % ("ok  " if ok else "FAIL", m["property"], m["id"], r.returncode,
-                                               (r.stdout.strip().splitlines() or [""])[1 if hit and len(r.stdout.strip().splitlines()) > 1 else 0][:150]))
+            first = (r.stdout.strip().splitlines() or [""])[1 if hit and len(r.stdout.strip().splitlines()) > 1 else 0][:150]
+            results.append({"id": m["id"], "ok": ok, "status": "caught" if hit else ("silent" if r.returncode == 0 else "exit%d" % r.returncode), "expect": want, "report": first.strip()})
+            if verbose:
+                print("%s %-8s %-40s exit=%d %s" % ("ok  " if ok else "FAIL", m["property"], m["id"], r.returncode, first))
             if not ok:
                 fails += 1
-                print(r.stdout[-1500:], r.stderr[-1500:])
+                if verbose:
+                    print(r.stdout[-1500:], r.stderr[-1500:])
         finally:
             shutil.rmtree(tmp, ignore_errors=True)
-    print("selftest: %d mutations, %d failures" % (n, fails))
-    return 1 if fails else 0
+    return results
 
 
 if __name__ == "__main__":
